@@ -317,9 +317,14 @@ class FoundNode(SymVal):
     def sym_truth(self, it): raise Outside('truth of branch.find() result')
 
 class ConstSetTok(SymVal):
+    "branch.constants: abstract; any element taken from it is the token `existing` (a constant already on the branch)"
     def sym_truth(self, it):
         b = it.fresh_bool('has_constants')
         return b
+    def sym_iter(self, it): return [Param('const', 'existing')]
+    def sym_minmax(self, it, is_min, default): return Param('const', 'existing')
+    def sym_len(self, it):
+        n = it.fresh_int('n_constants'); it.assume(n >= 0); return n
 
 class RuleModel(SymVal):
     "`self` inside a rule method: class attributes come from the live rule class (after the metaclasses ran)"
